@@ -174,8 +174,16 @@ func consume(c *Case, rd io.Reader, present int) (res result, f *vh.Failure) {
 			src = ngSrc{r}
 		}
 	}
-	if d := allocated() - a0; d > 16*uint64(present)+1<<20+1<<16 {
-		return res, vh.Failf(c.Reader+":alloc:constructor", "constructor allocated %d KiB for a %d-byte stream", d>>10, present)
+	// the bound is 'bytes present plus the declared snap length': what the reader reports once it exists, else the
+	// largest snap length field found in the stream (either byte order)
+	var lic uint64
+	if src != nil {
+		lic = src.snap()
+	} else {
+		lic = declaredSnap(c)
+	}
+	if d := allocated() - a0; d > 16*uint64(present)+lic+1<<20+1<<16 {
+		return res, vh.Failf(c.Reader+":alloc:constructor", "constructor allocated %d KiB for a %d-byte stream (declared snap length %d)", d>>10, present, lic)
 	}
 	if err != nil {
 		res.ctorErr = errClass(err)
@@ -258,6 +266,9 @@ func runCase1(c *Case) (*vh.Failure, info) {
 	present := c.Plain
 	if present <= 0 {
 		present = len(c.Data)
+	}
+	if len(c.Data) > 2 && c.Data[0] == 0x1f && c.Data[1] == 0x8b {
+		present = max(present, inflatedLen(c.Data)) // see genCase: damaged deflate data may inflate beyond the original
 	}
 	whole, f := consume(c, bytes.NewReader(c.Data), present)
 	if f != nil {
@@ -539,6 +550,35 @@ func kindOf(reader string) string {
 	return "ng"
 }
 
+// declaredSnap returns the largest snap length a stream declares (pcap file header, pcapng interface descriptions),
+// read in both byte orders; only used when the constructor failed and cannot be asked.
+func declaredSnap(c *Case) uint64 {
+	b := c.Data
+	if len(b) > 2 && b[0] == 0x1f && b[1] == 0x8b {
+		if zr, err := gzip.NewReader(bytes.NewReader(b)); err == nil {
+			b, _ = io.ReadAll(io.LimitReader(zr, 1<<20))
+		}
+	}
+	kind := kindOf(c.Reader)
+	var m uint64
+	for _, f := range fields(b, kind) {
+		if f[1] == 4 && snapField(b, kind, f[0]) {
+			m = max(m, uint64(binary.LittleEndian.Uint32(b[f[0]:])), uint64(binary.BigEndian.Uint32(b[f[0]:])))
+		}
+	}
+	return min(m, 64<<20)
+}
+
+// inflatedLen counts the bytes a gzip reader yields from b before it ends or fails.
+func inflatedLen(b []byte) int {
+	zr, err := gzip.NewReader(bytes.NewReader(b))
+	if err != nil {
+		return 0
+	}
+	n, _ := io.Copy(io.Discard, zr)
+	return int(n)
+}
+
 func genCase(t *rapid.T) *Case {
 	c := &Case{Reader: rapid.SampledFrom([]string{"pcap", "pcap", "ng", "ng", "ng-mixed", "ng-skip", "ng-strict", "snoop"}).Draw(t, "reader"), FaultAt: -1}
 	kind := kindOf(c.Reader)
@@ -622,6 +662,9 @@ func genCase(t *rapid.T) *Case {
 			}
 			b = g
 			c.Source += "+gzip-corrupt"
+			// a damaged deflate stream can inflate to more bytes than the original before the damage is noticed:
+			// what bounds the reader's output is what actually comes out of the decompressor
+			c.Plain = max(c.Plain, inflatedLen(b))
 		}
 	}
 	c.Data = b
